@@ -2618,6 +2618,12 @@ static int32_t pstm_invmod_slow(psPool_t *pool, const pstm_int *a,
     {
         goto LBL_X;
     }
+    /* zero has no inverse (pstm_iseven() is false for zero) */
+    if (pstm_iszero(&x) == PS_TRUE)
+    {
+        res = PS_FAILURE;
+        goto LBL_X;
+    }
 
     if (pstm_init_copy(pool, &y, b, 0) != PSTM_OKAY)
     {
